@@ -13,6 +13,7 @@ package execution
 //@   trusted
 //@   pure
 //@   ensures [named] err == nil ==> r == templateOf(toolMap, outputMap, command)
+//@   before_call Execute#1 [template_gets_the_targets_command_and_tables] data.UserCommand == ite(config.Global.DisableDefaultShellFlags, command, "set -eu\n" + command) && data.BinToolMap == toolMap && data.OutputIdentifierMap == outputMap
 
 //@ func GetExtendedTargetEnv(ctx, target) (env)
 //@   trusted
